@@ -58,6 +58,13 @@ class MySQLQueryBuilder(QueryBuilder):
         )
         return format_alias_sql("", self.alias, ctx)
 
+    def _offset_sql(self, ctx: SqlContext) -> str:
+        offset_sql = super()._offset_sql(ctx)
+        if offset_sql and self._limit is None:
+            # MySQL has no OFFSET without LIMIT; this is the documented "no limit" row count
+            return " LIMIT 18446744073709551615" + offset_sql
+        return offset_sql
+
     def get_sql(self, ctx: SqlContext | None = None) -> str:
         ctx = ctx or MySQLQuery.SQL_CONTEXT
         querystring = super().get_sql(ctx)
